@@ -131,20 +131,35 @@ def pasv_facts(tree):
 
 def unix_mode_facts(tree):
     f = find_func(tree, "parse_unix_mode")
-    table = None
+    # the rw table is identified by what it IS (a dict literal of string keys and integer values), not by the name of the local it is
+    # bound to: `<local> = {...}` followed by `<local>[s[a:b]]`, or the literal written at each use (`{...}[s[a:b]]`, which is also what
+    # normalize.py R3 makes of a private module constant); every use must read the same table
+    def dict_table(d):
+        return [(const_str(k, "parse_rw key"), const_int(v, "parse_rw value")) for k, v in zip(d.keys, d.values)]
+
+    bound = {}  # local name -> table
+    used = []
     slices, specials = [], []
     for s in f.body:
-        if isinstance(s, ast.Assign) and src(s.targets[0]) == "parse_rw" and isinstance(s.value, ast.Dict):
-            table = [(const_str(k, "parse_rw key"), const_int(v, "parse_rw value")) for k, v in zip(s.value.keys, s.value.values)]
+        if isinstance(s, ast.Assign) and len(s.targets) == 1 and isinstance(s.targets[0], ast.Name) and isinstance(s.value, ast.Dict):
+            if s.targets[0].id in bound or s.targets[0].id in ("mode", "s"):
+                raise Unclassified("parse_unix_mode: table local rebound: " + src(s))
+            bound[s.targets[0].id] = dict_table(s.value)
         elif isinstance(s, ast.AugAssign) and isinstance(s.op, ast.BitOr) and src(s.target) == "mode":
             v = s.value
             shift = 0
             if isinstance(v, ast.BinOp) and isinstance(v.op, ast.LShift):
                 shift = const_int(v.right, "shift")
                 v = v.left
-            if not (isinstance(v, ast.Subscript) and src(v.value) == "parse_rw" and isinstance(v.slice, ast.Subscript)
+            if not (isinstance(v, ast.Subscript) and isinstance(v.slice, ast.Subscript)
                     and src(v.slice.value) == "s" and isinstance(v.slice.slice, ast.Slice)):
                 raise Unclassified("parse_unix_mode: " + src(s))
+            if isinstance(v.value, ast.Dict):
+                used.append(dict_table(v.value))
+            elif isinstance(v.value, ast.Name) and v.value.id in bound:
+                used.append(bound[v.value.id])
+            else:
+                raise Unclassified("parse_unix_mode: subscripted object is neither a dict literal nor a local bound to one: " + src(s))
             slices.append((const_int(v.slice.slice.lower, "slice"), const_int(v.slice.slice.upper, "slice"), shift))
         elif isinstance(s, ast.If):
             pairs, idx, node = [], None, s
@@ -178,9 +193,11 @@ def unix_mode_facts(tree):
             continue
         else:
             raise Unclassified("parse_unix_mode: statement " + src(s))
-    if table is None:
-        raise Unclassified("parse_unix_mode: no parse_rw table")
-    return table, slices, specials
+    if not used:
+        raise Unclassified("parse_unix_mode: no rw table lookup")
+    if any(u != used[0] for u in used):
+        raise Unclassified("parse_unix_mode: the rw lookups read different tables")
+    return used[0], slices, specials
 
 
 def lister_facts(tree):
@@ -258,6 +275,113 @@ def decode_sites(src_dir):
     return out
 
 
+BUILTIN_CALLEES = {"isinstance", "len", "set", "list", "tuple", "dict", "str", "repr", "int", "bool", "sorted", "min", "max", "any", "all"}
+
+
+def dispatch_callees(src_dir):
+    """WHAT CODE a control line can make Server.dispatcher run.  Every call in the dispatcher has a callee that is either STATIC -- a dotted
+    chain of attributes rooted at a plain name (`self.greeting`, `asyncio.create_task`, `connection.response`, ...), a module-level /
+    builtin name -- or DYNAMIC: a local variable (resolved through every binding it has in the function, transitively through plain-name
+    copies), a parameter, or any other expression (subscript, call result, ...).  The fact is the list of the expressions a dynamic
+    callee can be bound to, with the function's locals alpha-renamed (L0, L1, ... in order of first occurrence in each expression), so it
+    does not depend on how locals are spelt.  The model gives a command an effect on ITS OWN session only (`handle`); that rests on the
+    only dynamic callee being the table lookup `self.commands_mapping.get(<verb>)`."""
+    tree = ast.parse((Path(src_dir) / "server.py").read_text())
+    f = find_func(tree, "dispatcher")
+    params = {a.arg for a in f.args.args + f.args.kwonlyargs + f.args.posonlyargs} | ({f.args.vararg.arg} if f.args.vararg else set()) \
+        | ({f.args.kwarg.arg} if f.args.kwarg else set())
+    bindings = {}  # local name -> list of value nodes (None = bound by something that is not a plain `name = value`)
+
+    def bind(target, value):
+        if isinstance(target, ast.Name):
+            bindings.setdefault(target.id, []).append(value)
+        elif isinstance(target, (ast.Tuple, ast.List)):
+            for e in target.elts:
+                bind(e, None)
+        elif isinstance(target, ast.Starred):
+            bind(target.value, None)
+
+    for n in ast.walk(f):
+        if isinstance(n, ast.Assign):
+            for t in n.targets:
+                bind(t, n.value)
+        elif isinstance(n, (ast.AnnAssign, ast.NamedExpr)):
+            bind(n.target, n.value)
+        elif isinstance(n, ast.AugAssign):
+            bind(n.target, None)
+        elif isinstance(n, (ast.For, ast.AsyncFor, ast.comprehension)):
+            bind(n.target, None)
+        elif isinstance(n, (ast.With, ast.AsyncWith)):
+            for it in n.items:
+                if it.optional_vars is not None:
+                    bind(it.optional_vars, None)
+        elif isinstance(n, ast.ExceptHandler) and n.name:
+            bindings.setdefault(n.name, []).append(None)
+        elif isinstance(n, (ast.FunctionDef, ast.AsyncFunctionDef, ast.ClassDef)) and n is not f:
+            bindings.setdefault(n.name, []).append(None)
+        elif isinstance(n, (ast.Import, ast.ImportFrom, ast.Global, ast.Nonlocal)):
+            raise Unclassified("dispatcher: " + src(n))
+    local_names = set(bindings) | params
+
+    def canon(node):
+        seen = {}
+
+        class R(ast.NodeTransformer):
+            def visit_Name(self, nm):
+                if nm.id in local_names and nm.id != "self":
+                    seen.setdefault(nm.id, f"L{len(seen)}")
+                    return ast.copy_location(ast.Name(id=seen[nm.id], ctx=nm.ctx), nm)
+                return nm
+
+        import copy
+        return src(R().visit(copy.deepcopy(node)))
+
+    out = []
+
+    def origins(name, trail):
+        if name in trail:
+            return
+        if name in params and name not in bindings:
+            out.append("param:" + name)
+            return
+        for v in bindings.get(name, []):
+            if v is None:
+                out.append("unpacked-or-loop-bound")
+            elif isinstance(v, ast.Name) and v.id in local_names:
+                origins(v.id, trail | {name})
+            elif isinstance(v, ast.Lambda):
+                continue  # a function written in the dispatcher itself: its body is walked with the rest
+            else:
+                out.append(canon(v))
+
+    done = set()
+    for n in ast.walk(f):
+        if not isinstance(n, ast.Call):
+            continue
+        fn = n.func
+        if isinstance(fn, ast.Name):
+            if fn.id in local_names:
+                if fn.id not in done:
+                    done.add(fn.id)
+                    origins(fn.id, frozenset())
+            elif fn.id not in BUILTIN_CALLEES and not any(isinstance(m, (ast.Import, ast.ImportFrom, ast.FunctionDef, ast.AsyncFunctionDef, ast.ClassDef, ast.Assign))
+                                                          and fn.id in src(m) for m in tree.body):
+                raise Unclassified("dispatcher: callee name of unknown origin: " + fn.id)
+        elif isinstance(fn, ast.Attribute):
+            # `<object>.<name fixed in the source>(...)`: which method runs does not depend on peer data -- unless it is the reflective one
+            if fn.attr in ("__getattribute__", "__getattr__", "__dict__"):
+                out.append(canon(n))
+        else:
+            out.append(canon(fn))
+    # reflective primitives anywhere in the function are dynamic callees in waiting
+    for n in ast.walk(f):
+        if isinstance(n, ast.Call) and isinstance(n.func, ast.Name) and n.func.id in ("getattr", "eval", "exec", "globals", "locals", "vars", "__import__"):
+            t = canon(n)
+            if t not in out:
+                out.append(t)
+    return out
+
+
 def generate(src_dir):
     path = Path(src_dir) / "client.py"
     tree = ast.parse(path.read_text())
@@ -295,4 +419,6 @@ def generate(src_dir):
     out.append("\n(* how peer bytes become text: (file, function, decoding call) *)")
     out.append("Definition decode_sites : list (list Z * list Z * list Z) := "
                + emit.lst([f"({T(a)}, {T(b)}, {T(c)})" for a, b, c in decode_sites(src_dir)]) + ".")
+    out.append("\n(* what a control line can make the dispatcher call: every expression a dynamically determined callee is bound to (locals alpha-renamed) *)")
+    out.append(f"Definition dispatch_dynamic_callees : list (list Z) := {emit.lst([T(c) for c in dispatch_callees(src_dir)])}.")
     return "\n".join(out) + "\n"
